@@ -204,13 +204,15 @@ func (set *SortedSet) AddOrUpdate(
 		if strings.EqualFold(policy, "xx") {
 			// Only update existing elements, do not add new elements
 			if set.Contains(m.Value) {
+				newScore := compareScores(set.members[m.Value].Score, m.Score, comp)
+				// With CH, count the member only when its score really changes.
+				if strings.EqualFold(ch, "ch") && newScore != set.members[m.Value].Score {
+					count += 1
+				}
 				set.members[m.Value] = MemberObject{
 					Value:  m.Value,
-					Score:  compareScores(set.members[m.Value].Score, m.Score, comp),
+					Score:  newScore,
 					Exists: true,
-				}
-				if strings.EqualFold(ch, "ch") {
-					count += 1
 				}
 			}
 			continue
